@@ -5,6 +5,7 @@ package main
 // model of the API (coq/Model/Api.v).
 
 import (
+	"strconv"
 	"encoding/hex"
 	"encoding/json"
 	"fmt"
@@ -190,6 +191,9 @@ func encodeArgs(d *dump.Dumper, mt reflect.Type, args []reflect.Value) ([]string
 			out = append(out, fmt.Sprintf("(any a%d)", anyID(valueOrNil(a))))
 		case pt.Kind() == reflect.Bool:
 			out = append(out, "(bool "+map[bool]string{true: "T", false: "F"}[a.Bool()]+")")
+		case pt.Kind() == reflect.Float64:
+			// the text strconv gives for the value (the model's EFloat carries this text: formatting is an oracle)
+			out = append(out, "(str "+hexs(strconv.FormatFloat(a.Float(), 'f', -1, 64))+")")
 		case pt.Kind() == reflect.Int || pt.Kind() == reflect.Int32 || pt.Kind() == reflect.Int64:
 			out = append(out, fmt.Sprintf("(int i%d)", a.Int()))
 		case pt.Kind() == reflect.Slice && isExp(pt.Elem()):
